@@ -198,6 +198,7 @@ def styles(tier, rng):
     return S
 
 
+@lanes.pathwise
 def verilog_job(job):
     vname, sidx, style, bf, seed = job
     rep = common.Report()
@@ -342,6 +343,7 @@ def render_verilog_from_nl(nl):
     return '\n'.join(L) + '\n'
 
 
+@lanes.pathwise
 def bench_job(job):
     k, seed, style = job
     rep = common.Report()
